@@ -126,11 +126,15 @@ JOBS['C02'] = [
      'defs': {'quick': {'K': 2, 'NFILES': 3}, 'thorough': {'K': 3, 'NFILES': 3}},
      'expect_reach': ['end', 'quit-refused', 'quit-allowed', 'switch-refused', 'switched', 'revisited'], 'timeout': {'quick': 280, 'thorough': 1700}},
 ]
+JOBS['C02'].append(
+    {'name': 'full_table', 'harness': 'c02_bufs.c', 'units': _bufs_units,
+     'defs': {'quick': {'K': 1, 'NFILES': 17, 'PREOPEN': 16}, 'thorough': {'K': 2, 'NFILES': 17, 'PREOPEN': 16}},
+     'expect_reach': ['end', 'table-full', 'quit-refused'], 'timeout': {'quick': 280, 'thorough': 1700}})
 JOBS['C20'] = [
     {'name': 'buffer_histories', 'harness': 'c02_bufs.c', 'units': _bufs_units,
      'defs': {'quick': {'K': 2, 'NFILES': 3}, 'thorough': {'K': 3, 'NFILES': 3}},
      'expect_reach': ['end', 'quit-refused', 'quit-allowed', 'switch-refused', 'switched', 'revisited'], 'timeout': {'quick': 280, 'thorough': 1700}},
     {'name': 'full_table', 'harness': 'c02_bufs.c', 'units': _bufs_units,
-     'defs': {'quick': {'K': 2, 'NFILES': 16, 'PREOPEN': 16}, 'thorough': {'K': 3, 'NFILES': 16, 'PREOPEN': 16}},
-     'expect_reach': ['end', 'table-full', 'switched', 'revisited'], 'timeout': {'quick': 280, 'thorough': 1700}},
+     'defs': {'quick': {'K': 2, 'NFILES': 17, 'PREOPEN': 16}, 'thorough': {'K': 3, 'NFILES': 17, 'PREOPEN': 16}},
+     'expect_reach': ['end', 'table-full', 'switched', 'revisited', 'deleted', 'evicted'], 'timeout': {'quick': 280, 'thorough': 1700}},
 ]
